@@ -72,6 +72,7 @@ func (P *Program) verifyFunction(con *Contract) (res *FuncResult) {
 		fr.regs[fv] = v
 		fr.freeVars = append(fr.freeVars, v)
 	}
+	g.paramEnd = len(g.lines)
 	fr.entry = st.clone()
 	g.entry = fr.entry
 	// known dynamic types from "requires dyn(p) == T"
@@ -117,6 +118,7 @@ func (P *Program) verifyFunction(con *Contract) (res *FuncResult) {
 			g.cover(site, r.st.path)
 		}
 		var posts []*Obligation
+		earlier := "true" // ensures clauses listed earlier are available as lemmas for later ones (each is proved on its own)
 		for ei, en := range con.Ensures {
 			ctx := &specCtx{fr: fr, st: r.st, old: fr.entry, kind: ctxPost, pkg: con.Pkg, results: r.vals}
 			t := fr.evalBool(en.Expr, ctx)
@@ -124,7 +126,9 @@ func (P *Program) verifyFunction(con *Contract) (res *FuncResult) {
 			if en.Tag != "" {
 				nm = en.Tag
 			}
-			o := g.oblige("post", nm+"@"+site, r.st.path, t, "ensures "+en.Text)
+			tn := g.define("ens", "Bool", t)
+			o := g.oblige("post", nm+"@"+site, and(r.st.path, earlier), tn, "ensures "+en.Text+"  [return near "+r.pos+"]")
+			earlier = and(earlier, tn)
 			if oc, ok := oracles[ei]; ok && o.script != "TRIVIAL" {
 				o.oracle = oc
 				o.oracleRes = oracleRes
@@ -222,7 +226,24 @@ func (fr *Frame) frameObligation(st *State, site string) {
 	g.oblige("frame", site, st.path, and(goals...), "assigns clause: nothing else is modified")
 }
 
+// lateParamAssumptions: for every interface-typed parameter and every dynamic type seen in the script,
+// the boxed value respects the invariants of its Go type (slice lengths non-negative, integers in range).
+func (g *Gen) lateParamAssumptions() {
+	for _, mv := range g.params {
+		if mv.T == nil || !isIface(mv.T) {
+			continue
+		}
+		for _, c := range g.S.consList {
+			rng := g.typeRange("("+c.sel+" "+mv.Term+")", c.t)
+			if rng != "true" {
+				g.late = append(g.late, "(assert (=> ((_ is "+c.name+") "+mv.Term+") "+rng+"))")
+			}
+		}
+	}
+}
+
 func (g *Gen) finalizeAll() {
+	g.lateParamAssumptions()
 	td := g.trustedDecls()
 	if td != "" {
 		g.pureDecls = append([]string{td}, g.pureDecls...)
@@ -266,8 +287,10 @@ func (P *Program) verifyLemma(l *Lemma) (res *FuncResult) {
 	t := fr.evalBool(l.Expr, ctx)
 	name := "lemma:" + l.Name
 	o := &Obligation{Name: l.Pkg + "#" + name, Kind: "lemma", Fn: key, Clause: l.Text, Mode: l.Mode.String(), Props: l.Props}
-	o.script = strings.Join(g.lines, "\n") + "\n(assert " + not(t) + ")\n"
+	o.nlines = len(g.lines)
+	o.script = "(assert " + not(t) + ")\n"
 	o.model = g.params
+	o.sorts = g.S
 	g.obls = append(g.obls, o)
 	g.finalizeAll()
 	res.Obls = g.obls
